@@ -56,6 +56,23 @@ def _far_nodes(rng):
 def generate(rng, tier):
     n = 260 if tier == "quick" else 5000
     cases = []
+    # knife edge of the flatness test: an inner control point exactly `flat` away from its chord (beside it, before its start, past its
+    # end) must cause a further split; chords whose squared length has an inexact reciprocal in binary (49, 98, 197, ...)
+    for _ in range(n // 8):
+        L = rng.choice([(7, 0), (14, 0), (7, 7), (14, 1), (3, 0), (5, 0), (0, 7), (10, 0), (6, 3)])
+        flat = F(rng.choice([1, 2, 1, F(1, 2)]))
+        ox, oy = F(rng.randint(-20, 20)), F(rng.randint(-20, 20))
+        ln2 = L[0] * L[0] + L[1] * L[1]
+        def at(t, off):      # point at parameter t of the chord, `off` chord-lengths-normalised units to its left: exact only for axis-parallel chords
+            if L[1] == 0: return (ox + t * L[0], oy + off)
+            if L[0] == 0: return (ox - off, oy + t * L[1])
+            return (ox + t * L[0], oy + t * L[1] + off)          # oblique chords: vertical offset (distance is off * Lx / |L|, not a knife edge, kept for variety)
+        t1 = F(rng.randint(1, 7), 8); t2 = F(rng.randint(1, 7), 8)
+        k = rng.choice(["beside", "beside", "before", "past"])
+        p1 = at(t1, flat) if k == "beside" else (at(F(0), F(0))[0] - (flat if L[1] == 0 else 0), at(F(0), F(0))[1] - (flat if L[1] != 0 else 0)) if k == "before" else at(t1, flat)
+        p2 = at(t2, rng.choice([flat, -flat, flat / 2, F(0)]))
+        nodes = [[(ox, oy), (ox, oy), p1], [p2, (ox + L[0], oy + L[1]), (ox + L[0], oy + L[1])]]
+        cases.append({"nodes": nodes, "flat": flat, "exact": True, "family": "flatness-knife-edge/%s/L2=%d" % (k, ln2)})
     for _ in range(n // 6):
         nodes = _far_nodes(rng)
         cases.append({"nodes": nodes, "flat": F(1, 2 ** rng.choice([13, 12, 11, 10])), "exact": True, "family": "far-from-origin/n=%d" % len(nodes)})
